@@ -62,10 +62,10 @@ class Evaluator:
 
     # ------------------------------------------------------------------ names
     def lookup(self, name, st):
+        if st.spec and name in st.ghost_env and name not in st.env.get("__bound__", ()):
+            return st.ghost_env[name]
         if name in st.env:
             return st.env[name]
-        if st.spec and name in st.ghost_env:
-            return st.ghost_env[name]
         if name in self.repo.consts:
             return self.repo.consts[name]
         if name in ("True", "False", "None"):
